@@ -2274,3 +2274,7 @@ M('C20','stopworkers-returns-from-the-walk','app/daemon/daemon.go',"""			if !wor
 
 				return""",'walk/visits-every-entry')
 M('C17','starvingmutex-runlock-signals-readers','runtime/syncutils/starvingmutex.go',"""		f.readerCond.Broadcast()""","""		f.readerCond.Signal()""",'cond/all-admissible-waiters-woken')
+M('C11','orderedmap-head-reads-tail-key','ds/orderedmap/orderedmap.go',"""	key = o.head.key
+""","""	key = o.tail.key
+""",'accessor/end-consistent')
+M('C10','movetoback-guard-looks-at-the-front','ds/list_impl.go',"""	if typedElement.list.Load() != l || l.root.prev.Load() == element {""","""	if typedElement.list.Load() != l || l.root.next.Load() == element {""",'accessor/end-consistent')
